@@ -1000,6 +1000,18 @@ func (env *Env) call(x *SExpr) *SVal {
 			sfail("unknown type %s", x.Args[1].Name)
 		}
 		return &SVal{T: e.implements(e.ifaceType(v.T), t), Typ: boolT}
+	case "asptr":
+		// asptr(x, "*pkg.T"): the pointer held by interface value x, read at static type *pkg.T (meaningful under
+		// dyntype_is(x, "*pkg.T"))
+		if len(x.Args) != 2 || x.Args[1].Kind != "str" {
+			sfail("asptr(iface, \"*pkg.T\")")
+		}
+		v := arg(0)
+		t := e.P.resolveType(x.Args[1].Name, nil)
+		if t == nil {
+			sfail("asptr: unknown type %s", x.Args[1].Name)
+		}
+		return &SVal{T: e.ifacePay(v.T), Typ: t}
 	case "payload":
 		v := arg(0)
 		return &SVal{T: e.ifacePay(v.T), Typ: nil}
